@@ -174,6 +174,18 @@ class RSocketBase(RSocket, RSocketInternal):
     def send_frame(self, frame: Frame):
         self._send_queue.put_nowait(frame)
 
+    def _requeue_partially_sent(self, frame_source: Frame):
+        # other streams may go in between, but later frames of the same stream must wait for the last fragment
+        items = []
+        while not self._send_queue.empty():
+            items.append(self._send_queue.get_nowait())
+
+        index = next((i for i, item in enumerate(items) if item.stream_id == frame_source.stream_id), len(items))
+        items.insert(index, frame_source)
+
+        for item in items:
+            self._send_queue.put_nowait(item)
+
     def send_complete(self, stream_id: int):
         self.send_payload(stream_id, Payload(), complete=True, is_next=False)
 
@@ -394,7 +406,7 @@ class RSocketBase(RSocket, RSocketInternal):
             next_fragment = next_frame_source.get_next_fragment(transport.requires_length_header())
 
             if next_fragment.flags_follows:
-                self._send_queue.put_nowait(self._send_queue.get_nowait())  # cycle to next frame source in queue
+                self._requeue_partially_sent(self._send_queue.get_nowait())  # cycle to next frame source in queue
             else:
                 next_frame_source.get_next_fragment(
                     transport.requires_length_header())  # workaround to clean-up generator.
